@@ -54,7 +54,19 @@ func runC08(c *fw.Ctx) {
 		c.Describe(label)
 		c.Count("evaluations", 1)
 		base := drv.RunMem("root.jst", unsplit, opt)
-		o, _ := dir.Run(p, opt, false)
+		o, rootPath := dir.Run(p, opt, false)
+		// the root file may be named in other spellings of the same path: nothing may change
+		if strings.Count(p.Files[p.Root], "INCLUDE ") >= 2 && !o.Crashed() {
+			d, b := filepath.Dir(rootPath), filepath.Base(rootPath)
+			for _, spelled := range []string{d + "/./" + b, d + "//" + b, d + "/../" + filepath.Base(d) + "/" + b} {
+				c.Count("evaluations", 1)
+				os2 := drv.RunPath(spelled, opt)
+				if _, eq := sameResult(o, os2); !eq && !os2.Crashed() {
+					c.Violate("root-path-spelling-changes-result", "C08:root-spelling", fmt.Sprintf("%s: root file named %q gives %s, named by its clean path %s", label, strings.TrimPrefix(spelled, filepath.Dir(d)), os2.Short(), o.Short()), map[string]interface{}{"project": p, "root_spelling": strings.TrimPrefix(spelled, filepath.Dir(d))})
+					break
+				}
+			}
+		}
 		judged, same := sameResult(base, o)
 		if !judged {
 			c.Count("skipped_crash", 1)
